@@ -270,6 +270,9 @@ func (p *Process) getBackoff() time.Duration {
 	if p.procConf.RestartPolicy.BackoffSeconds > backoff {
 		backoff = p.procConf.RestartPolicy.BackoffSeconds
 	}
+	if unit := verifTimeUnit(); unit != 0 {
+		return time.Duration(backoff) * unit
+	}
 	return time.Duration(backoff) * time.Second
 }
 
